@@ -249,13 +249,16 @@ def run(ctx: Ctx):
         cases.append(case)
     # e2e
     jobs = []
-    nsc = ctx.n(3, 100)
+    nsc = ctx.n(8, 100)
+    rest = OPTION_SETS[1:]
+    rng.shuffle(rest)
     for s in range(nsc):
         spec = {"R": rng.randint(1, 4), "groups": rng.randint(1, 2), "kernels": rng.randint(1, 3),
                 "seed": rng.randint(0, 10 ** 6), "ties": rng.randint(2, 6), "near": s % 2 == 0}
         if s == 0:
             spec["R"] = 1
-        opts_sets = OPTION_SETS if not ctx.quick() else [OPTION_SETS[0]] + rng.sample(OPTION_SETS[1:], 5)
+        opts_sets = OPTION_SETS if not ctx.quick() else \
+            [OPTION_SETS[0]] + [rest[(s * 4 + j) % len(rest)] for j in range(4)]
         if spec["R"] == 1 or spec["groups"] == 0:
             # collective-event building (-R) adds late-synthesized events too; it only runs on traces without
             # multi-rank collectives here (on those the experimental path raises, which is not C08's business)
